@@ -54,7 +54,8 @@ fn gen_rows(r: &mut Rng) -> Vec<GRow> {
         let sym = r.pick(&syms).to_string();
         let q = Decimal::new(r.range(1, 500_000), *r.pick(&[0u32, 0, 3]));
         let p = Decimal::new(r.range(1, 9_999_999), *r.pick(&[2u32, 4]));
-        let f = match r.below(3) { 0 => None, 1 => Some(Decimal::ZERO), _ => Some(Decimal::new(r.range(1, 5000), 2)) };
+        // fees: absent, zero, positive, or — one row in nine — negative (a rebate: no FEES clause, never `FEES -0.05`)
+        let f = match r.below(9) { 0..=2 => None, 3..=4 => Some(Decimal::ZERO), 5 => Some(Decimal::new(-r.range(1, 5000), 2)), _ => Some(Decimal::new(r.range(1, 5000), 2)) };
         let mut extra: Vec<GRow> = Vec::new();
         let row = match r.below(14) {
             0..=2 => GRow::Buy { d, sym, q, p, f },
@@ -150,7 +151,7 @@ const D16: &str = "D16 (what is left of it): an NRA Withholding / NRA Tax Adj ro
 
 pub fn run(ctx: &mut Ctx) {
     let prop = "C18";
-    ctx.ev.rule = "generated Schwab exports (Buy/Sell with $, comma, blank and '--' spellings and 'as of' dates; duplicate sells; Cancel Sell before/after its sell or with no sell; four dividend actions with negative/blank amounts; withholding rows matching a dividend, orphaned, or without symbol; Stock Split; eight non-CGT actions; unknown actions whose Description contains newlines, CR, '#', DSL-looking text, or up to 200 characters of mixed 1–4-byte text). Plus RSU vests (Stock Plan Activity row + awards entry with vest details and, half the time, a plain settlement-day price detail in either order): one BUY dated at the vest date, priced at the vest-date value. Oracles on the real converter: every emitted line parses with the real DSL parser (whatever the free text contains) and dated lines are chronological; the emitted item list equals the Lean model's (which is proved to keep each Buy/Sell row once, remove exactly one sell per matched cancel, aggregate same-day withholding, count the rest); rows shuffled → same multiset of lines; export cut into date-disjoint chunks → union of the chunks' lines equals the whole's. Independent count: comments and skipped count against the rows that yield no line (unattached withholding, blank dividends, splits, unknown, non-CGT). Known-finding class symbollessWithholding (what is left of D16). Non-trivial = exports with a cancel, a withholding row or an unknown row; distinct by JSON text.".into();
+    ctx.ev.rule = "generated Schwab exports (Buy/Sell with $, comma, blank and '--' spellings, fees absent, zero, positive or negative and 'as of' dates; duplicate sells; Cancel Sell before/after its sell or with no sell; four dividend actions with negative/blank amounts; withholding rows matching a dividend, orphaned, or without symbol; Stock Split; eight non-CGT actions; unknown actions whose Description contains newlines, CR, '#', DSL-looking text, or up to 200 characters of mixed 1–4-byte text). Plus RSU vests (Stock Plan Activity row + awards entry with vest details and, half the time, a plain settlement-day price detail in either order): one BUY dated at the vest date, priced at the vest-date value. Oracles on the real converter: every emitted line parses with the real DSL parser (whatever the free text contains) and dated lines are chronological; the emitted item list equals the Lean model's (which is proved to keep each Buy/Sell row once, remove exactly one sell per matched cancel, aggregate same-day withholding, count the rest); rows shuffled → same multiset of lines; export cut into date-disjoint chunks → union of the chunks' lines equals the whole's. Independent count: comments and skipped count against the rows that yield no line (unattached withholding, blank dividends, splits, unknown, non-CGT). Known-finding class symbollessWithholding (what is left of D16). Non-trivial = exports with a cancel, a withholding row or an unknown row; distinct by JSON text.".into();
     let mut r = Rng::new(ctx.seed ^ 0xC18);
     for i in 0..ctx.n(500, 30_000) {
         ctx.ev.evaluations += 1;
